@@ -15,6 +15,31 @@ CHECKS = {
    text="Explicit-state search on the real core over mutators plus ls subscriptions on existing, not-yet-existing and root parents taken at every position; after every step ls/pls of every prefix must equal the reference and the last list every live ls subscriber received must equal the current child list.",
    note="Trusts the reference model and the snapshot hook; duplicate notifications of an unchanged list are allowed (the statement only constrains the last one).",
    technique="explicit-state model checking of the real core (BFS over request histories, snapshot de-duplication, reference-model oracle)"),
+
+ "C02": dict(cat="model_checking", engine="wbmc-core/graph", ref="DESIGN.md §3 C02",
+   text="Every interleaving (request granularity) of 2-3 clients running cget-then-cset cycles on shared keys on the real core, with a plain writer, a deleter and a rogue client sending stale/future/u64-boundary versions; per step: cset succeeds iff the carried version equals the current one and raises it by one, plain set never replaces a CAS value, versions observed by a client never go backwards while the key exists, the stored value is the last acknowledged update.",
+   note="Atomicity of one request is structural (the core is owned by one task that processes one channel message to completion) and is assumed, not explored at memory level; at u64::MAX the version cannot be raised and the request must be refused.",
+   technique="explicit-state model checking of the real core (all interleavings of client programs at request granularity, de-duplicated)"),
+ "C03": dict(cat="model_checking", engine="wbmc-core/graph", ref="DESIGN.md §3 C03",
+   text="Explicit-state search on the real core over mutators, publish/spub and subscribe/psubscribe (unique x live-only)/unsubscribe/disconnect at every position with up to 3 concurrent subscriptions of 2 clients; after every request all receivers are drained and compared with the reference's expected stream (snapshot, then one event per accepted matching change in order, unique suppression, nothing after unsubscribe/disconnect, channel closed).",
+   note="Order of events across requests strict, inside one multi-key request as a multiset; delivery over a socket (forwarding tasks) is covered under C13; the socket-level settle-point enumeration of the design is not built.",
+   technique="explicit-state model checking of the real core (BFS over request histories, snapshot de-duplication, reference-model oracle)"),
+ "C04": dict(cat="exploration", engine="wbmc-core/c04", ref="DESIGN.md §3 C04",
+   text="Exhaustive enumeration of every pattern over {a,b,'',?,#} and every key over {a,b,''} up to 4 (quick) / 5 (thorough) segments: for each pair pget, live notification and pdelete on the real core must agree with each other and with the documented relation; patterns with a non-final # must be rejected by all three entry points also on an empty store.",
+   note="One key per store; segments other than a/b/'' behave like a/b (the matchers compare segments for equality only).",
+   technique="exhaustive enumeration of a bounded input space on the real core (all pattern/key pairs up to depth 4-5)"),
+ "C06": dict(cat="model_checking", engine="wbmc-core/graph", ref="DESIGN.md §3 C06",
+   text="Explicit-state search on the real core over lock/acquireLock/releaseLock/disconnect/connect by three clients over two nested keys; after every request answers, exactly-once confirmation/cancellation of every acquire receiver, holder and FIFO waiting order (from the snapshot) are compared with the reference.",
+   note="A waiting client's own releaseLock withdraws its pending acquires (left open by the statement, follows the implementation).",
+   technique="explicit-state model checking of the real core (BFS over request histories, snapshot de-duplication, reference-model oracle)"),
+ "C07": dict(cat="model_checking", engine="wbmc-core/graph", ref="DESIGN.md §3 C07",
+   text="Explicit-state search on the real core over connect, (re-)registration of grave goods / last wills (overlapping patterns, CAS-protected and protected $SYS targets), user writes, subscriptions, ls subscriptions, publish streams, locks and disconnect of 2 (quick) / 3 (thorough) clients in every order; session end must bury, then publish the will, remove the client's $SYS entries, subscriptions, streams and locks, each once, with events as for ordinary deletes/sets, and touch nothing else (full read-back + subscription/lock/stream tables from the snapshot).",
+   note="The events of one session end towards one subscriber are compared as two unordered batches (clean-up + burying, then the will); 'subscriptions' includes ls subscriptions.",
+   technique="explicit-state model checking of the real core (BFS over request histories, snapshot de-duplication, reference-model oracle)"),
+ "C08": dict(cat="model_checking", engine="wbmc-core/graph", ref="DESIGN.md §3 C08",
+   text="Explicit-state search on the real core: every request kind of an ordinary client (set, cset, delete, pdelete, publish, spubInit/spub, lock, grave goods / last will + disconnect) crossed with every key/pattern shape that can reach $SYS, with sentinels planted by the server's own client and watched by internal subscribers; no sentinel may change and no internal subscriber may see an event the reference does not attribute to the server.",
+   note="For wildcard-first patterns refusing, skipping $SYS, or skipping all but the client's own three entries are all accepted as conforming.",
+   technique="explicit-state model checking of the real core (BFS over request histories, snapshot de-duplication, reference-model oracle)"),
 }
 
 NOT_YET = {}
